@@ -24,13 +24,56 @@ PROPERTY = 'C19'
 LEAN_TARGETS = ['CpProofs.C19', 'drv_c19']
 DRIVER = 'drv_c19'
 THEOREMS = [
+    'CpProofs.C19.split1_iff',
+    'CpProofs.C19.validateNonce_iff',
+    'CpProofs.C19.isNonceStale_false_iff',
+    'CpProofs.C19.validateFields_ok_iff',
+    'CpProofs.C19.checkpasswordDict_iff',
+    'CpProofs.C19.basic_sound_complete',
+    'CpProofs.C19.basic_never_5xx',
+    'CpProofs.C19.basic_400_iff',
+    'CpProofs.C19.basic_other_scheme_401',
+    'CpProofs.C19.basic_empty_password_never',
+    'CpProofs.C19.requestDigest_eq_rfc',
+    'CpProofs.C19.requestDigest_authint',
+    'CpProofs.C19.challenge_stale_ne',
+    'CpProofs.C19.digest_grant_iff',
+    'CpProofs.C19.digest_sound',
+    'CpProofs.C19.digest_complete',
+    'CpProofs.C19.parseAuth_error',
+    'CpProofs.C19.digest_400_iff',
+    'CpProofs.C19.digest_other_scheme_401',
+    'CpProofs.C19.digest_stale_iff',
+    'CpProofs.C19.digest_forged_nonce_never_stale',
+    'CpProofs.C19.digest_wrong_response_401',
+    'CpProofs.C19.digest_error_iff',
+    'CpProofs.C19.digest_never_5xx_full_false',
+    'CpProofs.C19.digest_never_5xx_partial',
+    'CpProofs.C19.digest_complete_full_false',
+    'CpProofs.C19.md5_sess_recognised',
+    'CpProofs.C19.ha2_no_valueError',
+    'CpProofs.C19.tools_hooked',
+    'CpProofs.C19.lifetime_default',
 ]
 LEVEL = 'proof'
 TECHNIQUE = ('Lean 4 proof over a statement-by-statement model of basic_auth / digest_auth with the hash, base64, '
              'charset codec and NFC as arbitrary function parameters; model tied to the tools by a differential run '
              'driven by an independent RFC 2617/7617 client with systematic single-field corruption')
-LEVEL_TEXT = ''
-LEVEL_NOTE = ''
+LEVEL_TEXT = ('Proved in Lean for every Authorization header string, configuration, method and clock value, with the hash, '
+              'base64 decoder, accept_charset codec and NFC arbitrary functions: basic_auth lets a request through with '
+              'login=u iff the header is "<basic> <b64>" whose bytes decode (accepted charset, else ISO-8859-1; NFC) to u:p '
+              'with store[u]=p non-empty, otherwise answers the Basic challenge (401) or 400 exactly on the listed parse '
+              'failures, never an exception; digest_auth lets it through iff the header parses, the nonce is '
+              't:H(t:realm:key) for the server\'s realm and key with int(t)+600 > now, and response equals the RFC 2617 '
+              'request-digest recomputed from the stored HA1, the request method and the header fields (qop absent/auth, '
+              'MD5/MD5-sess); stale="true" iff genuine nonce + known user + correct digest + expired; 400 iff the Digest '
+              'header fails the parser/constructor; an exception escapes iff qop=auth-int (F21: TypeError). Partial: '
+              'completeness and never-5xx exclude qop=auth-int (both full statements are proved false with the F21 '
+              'witness); MD5 collision resistance, base64, codecs, NFC are parameters; RFC 2047 header decoding is outside.')
+LEVEL_NOTE = ('Trusted: Lean kernel (axioms propext, Classical.choice, Quot.sound only); lean/CpModel/Auth.lean as a '
+              'description of auth_basic.py/auth_digest.py, validated on every run by the differential stream (independent '
+              'RFC 2617/7617 client x corruption catalogue) and by cross-checking the driver\'s MD5/base64/UTF-8/int()/'
+              'strip/case/urllib-list-parser transcriptions against the running CPython; the harness.')
 TRUSTED_BASE = [
     'MD5, base64, the accept_charset codec and NFC are parameters of the model (theorems hold for every function); '
     'the driver\'s concrete MD5 / base64 / UTF-8 instances are cross-checked against CPython on every run',
